@@ -1354,6 +1354,15 @@ def explore_c13(ctx, res, replay_ops=None):
                 res.disagreements += 1
                 res.violation("correspondence", "auth: model and implementation differ", [op, "# impl:  " + im, "# model: " + mo], found_input=False)
             continue
+        if t[1] == "nrf":
+            res.evaluations += 1
+            res.traces_validated += 1
+            res.nontrivial.add(op)
+            res.dist["nrf-registration-answer:%s" % t[2]] += 1
+            if im != mo:
+                res.violation("oracle", "C13: the NRF answered the registration with %s and declared OAuth2 %s: afterwards %s (expected %s)" % (
+                    t[2], "mandatory" if t[3] == "1" else "not mandatory", im, mo), [op, "# impl:  " + im, "# model: " + mo])
+            continue
         if t[1] != "probe":
             continue
         if im == "n/a":
